@@ -24,6 +24,8 @@ var htmlPayloads = []string{
 	`</title><script>x</script>`, `--><!-- `, `<!--`, `&lt;b&gt;`, `&#x3c;script&#x3e;`, `%3Cscript%3E`, "`onload=`", `{{.}}`, "a\x00b", "  ", `data:text/html;base64,PHNjcmlwdD4=`,
 	` spaced out `, `!"#$%&'()*+,-./:;<=>?@[\]^_{|}~`, `héllo/wörld`, `日本語`, `\"; alert(1); //`, `</a><a href="javascript:x">`, `" style="x:expression(1)`, `]]>`, `<svg/onload=alert(1)>`,
 	`vendor/github.com/x/y`, `@v1.2.3`, `#fragment?query=1&x=<y>`, `..%2f..%2f`, "tab\there", `file:///etc/passwd`, `//evil.example/`, `\\evil\share`, "line\nbreak",
+	// the module cache's case encoding ("!x" for "X") and its degenerate forms
+	`!burnt!sushi`, `trailing!`, `dou!!ble`, `!`, `%21`, `@`, `@@v1`, `v2@`,
 }
 
 type c17Case struct {
@@ -222,7 +224,14 @@ func hostileSnapshot(rr *core.Rand) (*stack.Snapshot, *marked) {
 		c.Line = rr.Intn(100000)
 		c.Location = stack.Location(rr.Intn(5))
 		fam := rr.Pick(families)
-		switch rr.Intn(3) {
+		switch rr.Intn(4) {
+		case 3:
+			// a versioned module whose host, user and project@version segments carry payloads
+			c.RelSrcPath = rr.Pick([]string{"github.com/", "golang.org/x/", "gopkg.in/", "example.org/"}) + pay(false) + "/" + pay(false) + "@v1.2.3/" + pay(false) + ".go"
+			if rr.Bool() {
+				c.RelSrcPath = "github.com/" + rr.Pick(htmlPayloads) + "/" + rr.Pick(htmlPayloads) + "@v1.2.3/w.go"
+			}
+			c.ImportPath = "github.com/" + pay(false)
 		case 0:
 			c.RelSrcPath = fam + pay(false) + "/" + pay(false) + "/" + pay(false) + ".go"
 			c.ImportPath = fam + pay(false)
